@@ -449,13 +449,21 @@ func (s *Server) manifestVerifyImage(repo store.Repo, m types.Manifest) []types.
 func (s *Server) manifestVerifyIndex(repo store.Repo, m types.Index) []types.ErrorInfo {
 	// TODO: allow validation to be disabled
 	es := []types.ErrorInfo{}
+	index, errIndex := repo.IndexGet()
 	for _, d := range m.Manifests {
 		// TODO: allow sparse manifests
 		r, err := repo.BlobGet(d.Digest)
 		if err != nil {
 			es = append(es, types.ErrInfoManifestBlobUnknown("manifest not found: "+d.Digest.String()))
-		} else {
-			_ = r.Close()
+			continue
+		}
+		_ = r.Close()
+		// The descriptor in a pushed index replaces the entry of an untagged child manifest.
+		// Refuse descriptors that would change the media type the child was pushed with.
+		if errIndex == nil {
+			if cur, err := index.GetDesc(d.Digest.String()); err == nil && cur.MediaType != d.MediaType {
+				es = append(es, types.ErrInfoManifestInvalid("manifest "+d.Digest.String()+" has media type "+cur.MediaType))
+			}
 		}
 	}
 	if len(es) > 0 {
